@@ -155,6 +155,8 @@ def check_property(prop, tier, seed, replay=None):
     except Exception as e:  # a crash of the machinery must not look like success
         broken.append(("machinery", traceback.format_exc()[-3000:]))
 
+    if evaluations == 0 and not any(b[0] in ("harness-or-model-build", "machinery") for b in broken):
+        broken.append(("machinery", "no script was executed"))
     coverage["evaluations"] = evaluations
     coverage["distinct_nontrivial"] = len(nontrivial)
     coverage["traces_validated_against_impl"] = evaluations
